@@ -216,7 +216,7 @@ def replay(obj):
         return any(v["signature"] == obj["signature"] for v in r.spec_violations)
     case = obj["case"]
     c = case["config"]
-    cfg = ec.Config(c["shape"], adapter=c["adapter"], watcher=c["watcher"], initial=c["initial"], is_async=c.get("async", False))
+    cfg = ec.Config(c["shape"], adapter=c["adapter"], watcher=c["watcher"], initial=c["initial"], is_async=c.get("async", False), late=c.get("late", False))
     hist = [tuple(o) for o in case["history"]]
     r = common.Result()
     out = ec.run_history(cfg, hist, [], fresh_oracle=False)
